@@ -96,6 +96,15 @@ claim("C02",
       "of CREATE TABLE); un-aliased expression display names are not compared; self-insert assumed away for pairs",
       "DESIGN.md section 3 and 4 (C02)")
 
+claim("C14",
+      "Twin templates per corpus statement: analysed under default schema S (scoped override of the real SQLLineageConfig, or the stubbed "
+      "environment) versus the statement with every unqualified table written S.name; S and up to 4/6 other names are free, so S may equal "
+      "a qualifier already present; z3 decides over all namings that tables, column pairs and exported node ids (both levels) are equal. "
+      "Counterexamples replayed on the unmodified library with the real config mechanism.",
+      TRUST + "; parser boundary stubbed; statements with a scalar subquery as select item are excluded (library re-enters on text); "
+      "the legacy sqlparse analyzer is not covered by this check",
+      "DESIGN.md section 4 (C14)")
+
 ALL = ["C%02d" % i for i in range(1, 19)]
 
 
